@@ -18,6 +18,16 @@ PARTIAL = [
     "the file system and gzip/bz2/open are contracts of the model (bytes written in one format are read back by the same "
     "opener, and refused by the others); exercised on real files in a temp dir by the correspondence",
     "json text layer is the contract JsonCodec (see C19)",
+    "NaN entries of the state: JSON text has the single token NaN, so after to_json / a file a NaN comes back as +NaN "
+    "0x7ff8000000000000 whatever its sign / payload was (the NaNs the hardware produces have the sign bit set: known finding "
+    "C19:nan-sign-bit, shown by a witness in the C19 check). When the serialised text contains NaN, outputs, attributes and "
+    "kernel parameters of the routes through text are therefore compared up to NaN sign / payload (NaNs at the same "
+    "places, all other entries bit for bit: same_out / pv.equiv with relax); the routes without text (copy, to_dict / "
+    "from_dict) are compared bit for bit including NaNs",
+    "the order of set records: the model keeps the elements of a set record in the order of its input, the implementation "
+    "writes them sorted (repair of H3-C1); the correspondence compares set records as unordered, the ORACLE compares the "
+    "re-serialised JSON text exactly (C07:reserialise-order), demands the sorted order (C07:state-variables-order) and "
+    "runs fresh interpreters under several PYTHONHASHSEED values (C07:reserialise-hashseed, C07:text-depends-on-hashseed)",
     "bit-identical mean/covariance/derivative outputs follow in Lean from equality of (class, attributes, kernel) for any "
     "evaluation function of these (eval_congr); the JAX evaluation itself is exercised by the bitwise oracle only",
     "compress_select excludes by design (test-suite pins it) the pairs Path + explicit keyword + name without the matching "
@@ -331,6 +341,17 @@ def case_pred(ctx, res, p):
             a, b = c19.strip_dates(json.loads(json.dumps(again[1]))), c19.strip_dates(json.loads(js0))
             if py_sorted(a) != py_sorted(b):
                 res.oracle_fail(f"re-serialised content differs after {name}", p, signature="C07:reserialise:" + name)
+            elif json.dumps(a) != json.dumps(b):
+                # EXACT comparison (finding H3-C1, repaired): same JSON text, i.e. also the element order of every set
+                # record (_state_variables) and the key order of "data" - they followed set-iteration order, which a
+                # reloaded set need not share with the original (insertion history, hash seed)
+                res.oracle_fail(f"re-serialised content equal only up to the order of a set record / of the keys after "
+                                f"{name}", p, signature="C07:reserialise-order:" + name)
+    # the state-variable set is written in sorted order (reproducible text, independent of the hash seed)
+    sv = json.loads(js0)["data"].get("_state_variables")
+    if isinstance(sv, dict) and sv.get("type") == "set" and sv.get("data") != sorted(sv["data"]):
+        res.oracle_fail("the _state_variables set is not written in sorted order", p, detail={"written": sv["data"]},
+                        signature="C07:state-variables-order")
     # ---- copy shares no mutable state
     if "copy" in loaded:
         shared = mutate_all(loaded["copy"])
@@ -634,9 +655,70 @@ def case_version(ctx, res, p):
             res.corr_fail("class-name upgrade: model and str.replace differ", p, detail={"model": up})
 
 
+
+HASHSEED_SCRIPT = r"""
+import sys, json, logging, warnings, hashlib
+sys.path.insert(0, sys.argv[1]); warnings.filterwarnings("ignore")
+import numpy as np, mellon
+logging.getLogger("mellon").setLevel(logging.CRITICAL)
+from mellon.conditional import FullConditional, LandmarksConditional
+from mellon.cov import Matern52
+def strip(o):
+    if isinstance(o, dict):
+        return {k: ("D" if k == "serialization_date" else strip(v)) for k, v in o.items()}
+    return [strip(v) for v in o] if isinstance(o, list) else o
+rng = np.random.default_rng(1)
+X = rng.normal(size=(12, 3)); y = rng.normal(size=12)
+out = {}
+for name, p in (("full", FullConditional(X, y, 0.1, Matern52(1.3), sigma=0.1, with_uncertainty=True)),
+                ("lm", LandmarksConditional(X, X[:5], y, 0.1, Matern52(1.3), sigma=0.1, with_uncertainty=True))):
+    q = mellon.Predictor.from_json_str(p.to_json())
+    a, b = json.dumps(strip(json.loads(p.to_json()))), json.dumps(strip(json.loads(q.to_json())))
+    out[name] = {"same_text": a == b, "sha": hashlib.sha1(a.encode()).hexdigest(),
+                 "state_variables": json.loads(a)["data"]["_state_variables"]["data"],
+                 "reloaded": json.loads(b)["data"]["_state_variables"]["data"]}
+print("RESULT " + json.dumps(out))
+"""
+
+
+def case_hashseed(ctx, res, p):
+    """Finding H3-C1 (repaired): string hashing is randomised per process, so the order in which a set of attribute names
+    iterates differs between processes and between a set and its reloaded copy.  Fresh interpreters under the given
+    PYTHONHASHSEED values serialise the same predictors, reload them and serialise again: the text (time stamp apart)
+    must be the same before and after the reload, and the same under every seed."""
+    import subprocess
+    from ..common import REPO
+    res.count("hashseed")
+    res.case(("hashseed", tuple(p["seeds"])), True, {"op": "hashseed", "seeds": list(p["seeds"])})
+    outs = {}
+    for hs in p["seeds"]:
+        env = dict(os.environ, PYTHONHASHSEED=str(hs), JAX_PLATFORMS="cpu")
+        r = subprocess.run([sys.executable, "-c", HASHSEED_SCRIPT, REPO], env=env, capture_output=True, text=True, timeout=300)
+        line = [l for l in r.stdout.splitlines() if l.startswith("RESULT ")]
+        if r.returncode != 0 or not line:
+            res.oracle_fail(f"serialising under PYTHONHASHSEED={hs} failed", p, detail={"stderr": r.stderr[-300:]},
+                            signature="C07:hashseed-run")
+            return
+        outs[hs] = json.loads(line[0][7:])
+    for hs, o in outs.items():
+        for name, v in o.items():
+            if not v["same_text"]:
+                res.oracle_fail(f"re-serialising a reloaded predictor gives a different text under PYTHONHASHSEED={hs}", p,
+                                detail={"predictor": name, "original": v["state_variables"], "reloaded": v["reloaded"]},
+                                signature="C07:reserialise-hashseed")
+                return
+    first = outs[p["seeds"][0]]
+    for hs, o in outs.items():
+        if any(o[name]["sha"] != first[name]["sha"] for name in first):
+            res.oracle_fail(f"the serialised text depends on PYTHONHASHSEED ({p['seeds'][0]} vs {hs})", p,
+                            detail={str(k): {n: v[n]["state_variables"] for n in v} for k, v in outs.items()},
+                            signature="C07:text-depends-on-hashseed")
+            return
+
+
 def run_case(ctx, res, p):
     return {"pred": case_pred, "file": case_file, "legacy": case_legacy, "copyshare": case_copyshare,
-            "version": case_version}[p["op"]](ctx, res, p)
+            "version": case_version, "hashseed": case_hashseed}[p["op"]](ctx, res, p)
 
 
 # ------------------------------------------------------------------ generation
@@ -680,6 +762,9 @@ def run(ctx, res):
     # --- regression case of the repaired defect F3 (a list-valued active_dims was shared by copy()): must PASS
     run_case(ctx, res, {"op": "pred", "cls": "FullConditional", "seed": 5, "n": 5, "d": 2, "m": 3, "unc": False,
                         "state": "plain", "tree": ["M52", 1.3, ["AL", [0, 1]]], "derivs": False})
+    # --- regression case of the repaired finding H3-C1 (set-iteration order in the serialised text): two hash seeds, 8 is
+    # one of those under which the reloaded set iterated differently (also 9, 31, 35, 36, 43, 54, 56)
+    run_case(ctx, res, {"op": "hashseed", "seeds": [8, 31] if quick else [8, 9, 31, 0]})
     # --- allocation model on values
     L = lambda xs: ["L", xs]
     for sp, fresh in [(["A", "np", "f", [2], [fbits(1.0), fbits(2.0)]], True), (["ST", [["S", "a"], ["I", 1]]], True),
@@ -752,7 +837,8 @@ CLAIM = {
             "model driver through every route and by a bitwise oracle on mean/covariance/mean_covariance/uncertainty/gradient/"
             "hessian outputs, real files in a temp dir, mutation of every container of the copy, synthesised legacy dicts.",
     "note": "file system, gzip/bz2 and the JSON text layer are contracts; JAX evaluation is exercised by the oracle only; "
-            "Correspondence is sampled differential testing.",
+            "'bitwise' is up to the sign / payload of NaN entries on the routes through JSON text (known finding "
+            "C19:nan-sign-bit); Correspondence is sampled differential testing.",
     "technique": "Lean 4 proof (induction over value/kernel syntax, decision-table case analysis over character lists, "
                  "allocation-id model) + exact differential correspondence + bitwise oracle",
 }
